@@ -123,7 +123,7 @@ def gen_bound(rng):
 def gen_spec(rng):
     fill = rng.choice(["", "", "_", "*", "0", " ", "x", ">", "s", "ü",
                        # characters that mean something in other positions of a format spec
-                       ".", "-", "+", "#", ",", "=", "%", ":", "<", "^", "9", "\u65e5"])
+                       ".", "-", "+", "#", ",", "=", "%", ":", "<", "^", "9", "\u65e5", "\n", "\t", "\\"])
     align = rng.choice(["<", ">", "^"]) if (fill or rng.random() < 0.6) else ""
     width = rng.choice(["", "1", "3", "5", "8", "12", "20", "33", "64", "100", "9", "10", "11"])
     typ = rng.choice(["", "", "s"])
